@@ -392,21 +392,32 @@ def check_vname_is_applied(ctx, rid: str):
     f = ctx.repo.get_func(OPERATOR_REL, "OperatorTemplate.apply")
     target = ctx.repo.get_func(OPERATOR_REL, "check_vname")
     reach = ctx.cg.reachable([f])
-    n_loops = 0
-    for g in sorted(reach, key=lambda x: (x is not f, x.qual)):
-        if g.module is not f.module:
-            continue
-        var_loops = [l for l in walk_shallow(g.node) if isinstance(l, ast.For)
-                     and any(isinstance(n, ast.Attribute) and n.attr == "variables" for n in ast.walk(l.iter))]
-        n_loops += len(var_loops)
-        for call, targets, _how in ctx.cg.calls.get(g, ()):
-            if target in targets and call.args and isinstance(call.args[0], ast.Name):
-                for a in _ancestors(call):
-                    if a in var_loops and call.args[0].id in target_names(a.target):
-                        return f, call
-    if not n_loops:
+    funcs = [g for g in sorted(reach, key=lambda x: (x is not f, x.qual)) if g.module is f.module]
+    var_loops = {g: [l for l in walk_shallow(g.node) if isinstance(l, ast.For)
+                     and any(isinstance(n, ast.Attribute) and n.attr == "variables" for n in ast.walk(l.iter))] for g in funcs}
+
+    def applied(tgt, arg_index: int, depth: int):
+        """A call of tgt whose argument `arg_index` is the name target of a loop over the template's variables — directly, or
+        through a helper that hands one of its own parameters on."""
+        for g in funcs:
+            for call, targets, _how in ctx.cg.calls.get(g, ()):
+                if tgt not in targets or len(call.args) <= arg_index or not isinstance(call.args[arg_index], ast.Name):
+                    continue
+                a = call.args[arg_index]
+                for anc in _ancestors(call):
+                    if anc in var_loops[g] and target_names(anc.target)[:1] == [a.id]:     # the variable's name comes first
+                        return call
+                params = [p for p in g.params if p != g.self_name]
+                if depth < 2 and a.id in params and g is not f and not any(
+                        isinstance(n, ast.Name) and n.id == a.id and isinstance(n.ctx, ast.Store) for n in walk_shallow(g.node)):
+                    r = applied(g, params.index(a.id), depth + 1)
+                    if r is not None:
+                        return r
+        return None
+    call = applied(target, 0, 0)
+    if call is None and not any(var_loops.values()):
         raise AnalysisError(f"{rid}: OperatorTemplate.apply no longer loops over the template's variables (unrecognised form)")
-    return f, None
+    return f, call
 
 
 def _ancestors(n):
